@@ -10,8 +10,10 @@ package main
 import (
 	"crypto/ed25519"
 	"crypto/rand"
+	"errors"
 	"fmt"
 	"io"
+	"net"
 	"runtime"
 	"strings"
 	"sync"
@@ -341,10 +343,81 @@ func execRK(o hx.Op) string {
 	return finish()
 }
 
+// execFailKex: a re-key whose host key check fails while q application packets are queued.
+func execFailKex(o hx.Op) string {
+	q := o.Int("n")
+	a, b := newHalf(), newHalf()
+	cconn, sconn := &duplex{r: b, w: a}, &duplex{r: a, w: b}
+	var cs, ss side
+	var calls atomic.Int64
+	ccfg := &ssh.ClientConfig{User: "u", HostKeyCallback: func(string, net.Addr, ssh.PublicKey) error {
+		if calls.Add(1) >= 2 {
+			return errors.New("host key rejected on re-key")
+		}
+		return nil
+	}}
+	ccfg.KeyExchanges = []string{"curve25519-sha256"}
+	ccfg.Ciphers = []string{o.Str("cipher")}
+	scfg := &ssh.ServerConfig{NoClientAuth: true}
+	scfg.AddHostKey(signer())
+	cv, sv := []byte("SSH-2.0-verifC"), []byte("SSH-2.0-verifS")
+	cs.h = ssh.VerifNewClientHandshakeRec2(cconn, cv, sv, ccfg, cs.wire.rec)
+	ss.h = ssh.VerifNewServerHandshakeRec2(sconn, cv, sv, scfg, ss.wire.rec)
+	defer func() { cconn.Close(); sconn.Close(); go cs.h.Close(); go ss.h.Close() }()
+	errc := make(chan error, 2)
+	go func() { errc <- cs.h.WaitSession() }()
+	go func() { errc <- ss.h.WaitSession() }()
+	for i := 0; i < 2; i++ {
+		select {
+		case err := <-errc:
+			if err != nil {
+				return "r st=err fk=0 cwire=" + cs.wire.String()
+			}
+		case <-time.After(10 * time.Second):
+			return "r st=hang fk=0 cwire=" + cs.wire.String()
+		}
+	}
+	go cs.reader()
+	go ss.reader()
+	b.gate(true)
+	cs.h.RequestKeyExchange()
+	t0 := time.Now()
+	for {
+		if k, _ := cs.h.KexState(); k || time.Since(t0) > 5*time.Second {
+			break
+		}
+		time.Sleep(100 * time.Microsecond)
+	}
+	for k := 0; k < q; k++ {
+		cs.h.WritePacket([]byte{appType, 0xA5, 0, 0, 0, byte(k)})
+	}
+	b.gate(false) // the server's KEXINIT and reply arrive, the host key callback rejects
+	t0 = time.Now()
+	for time.Since(t0) < 5*time.Second {
+		if err := cs.h.WritePacket([]byte{appType, 0xA5, 1, 0, 0, 0}); err != nil {
+			break // the connection has been torn down
+		}
+		time.Sleep(time.Millisecond)
+	}
+	// application packets recorded after the last KEXINIT
+	cs.wire.mu.Lock()
+	fk := 0
+	for i := len(cs.wire.tok) - 1; i >= 0 && cs.wire.tok[i] != "K"; i-- {
+		if strings.HasPrefix(cs.wire.tok[i], "a") {
+			fk++
+		}
+	}
+	cs.wire.mu.Unlock()
+	return fmt.Sprintf("r st=failkex fk=%d cwire=%s", fk, cs.wire.String())
+}
+
 func exec(line string) string {
 	o := hx.Parse(line)
 	if o.Cmd != "rk" {
 		return "bad-op"
+	}
+	if o.Str("failkex") == "1" {
+		return execFailKex(o)
 	}
 	return execRK(o)
 }
@@ -353,6 +426,11 @@ func gen(g *hx.Gen) {
 	r := g.R
 	total := g.Count(220, 20000)
 	ciphers := []string{"aes128-ctr", "aes128-gcm@openssh.com", "chacha20-poly1305@openssh.com"}
+	// error path: a re-key that fails its host key check while packets are queued (known finding F9)
+	for _, q := range []int{1, 10, 64} {
+		g.Emit("rk seed=%d cw=1 sw=0 n=%d thr=0 sthr=0 size=0 req=0 stall=0 yield=0 cipher=%s failkex=1", r.U64()>>1, q, hx.Pick(r, ciphers))
+		g.Stat("failkex")
+	}
 	for i := 0; i < total; i++ {
 		cw := r.Range(1, 8)
 		sw := r.PickInt(0, 0, 1, 2, 4)
